@@ -423,9 +423,11 @@ class Path:
         istar = z3.Const("i*", I)
         saved_pc = len(self.pc)
         self.solver.push()
+        self.pure += 1              # element expressions are read totally here (their side conditions are checked on access)
         try:
             elem = z3.simplify(self.box(rule(istar)))
         finally:
+            self.pure -= 1
             self.solver.pop()
             del self.pc[saved_pc:]
         key = (z3.simplify(n).sexpr(), elem.sexpr())
